@@ -122,6 +122,7 @@ class Interp:
         self.calls = []  # (qualname, args, kwargs, site, result)
         self.ext_calls = _Logged(self)  # (name, args, kwargs, site, result)
         self.timeline = []  # chronological ("call"|"ext", name, record)
+        self.call_ast = {}  # resolved callee name -> ast.Call nodes that invoked it (identity of the program model's nodes)
         self.stack = []
         self.frames = []
         self.max_unroll = max_unroll
@@ -192,6 +193,12 @@ class Interp:
         e.lines = tuple((fr.func.qualname, getattr(fr, "cur_line", 0)) for fr in self.frames if fr.func is not None)
         self.effects.append(e)
         return e
+
+    def note_node(self, name, node):
+        if node is not None:
+            l = self.call_ast.setdefault(name, [])
+            if not any(x is node for x in l):
+                l.append(node)
 
     def decide(self, known, node, desc="", value=None):
         """known: True/False/None.  Unknown -> consult the decision vector."""
@@ -560,6 +567,11 @@ class Interp:
             return it.obj.elem
         if isinstance(it, VUnknown):
             el = getattr(it, "elem", None)
+            if first and getattr(it, "elem_first", None) is not None:
+                try:
+                    return it.elem_first()
+                except Unsupported:
+                    pass
             if el is not None:
                 return el() if callable(el) else el
             return VUnknown("elem(%s)" % it.tag, "unknown", it.origin)
@@ -1040,6 +1052,7 @@ class Interp:
             self.calls.append([func.qualname, list(args), dict(kwargs), self.site(node), result, env, snapshot_terms(self, result),
                                {k: snapshot_terms(self, v) for k, v in env.items()}])
             self.timeline.append(("call", func.qualname, self.calls[-1]))
+            self.note_node(func.qualname, node)
             return result
         result = self._invoke(func, args, kwargs, node, fv)
         if unsqueezed:
@@ -1058,6 +1071,7 @@ class Interp:
         rec_args = {k: snapshot_terms(self, v) for k, v in env.items()}
         self.calls.append(rec)
         self.timeline.append(("call", func.qualname, rec))
+        self.note_node(func.qualname, node)
         try:
             try:
                 self.exec_block(func.node.body)
